@@ -94,6 +94,19 @@ func (b *vhBackend) step(kind string, gs *pokerface.GameState, opts *pokerface.G
 	k := len(b.calls)
 	b.calls = append(b.calls, vhCall{kind: kind, gs: gs, opts: opts, chips: chips})
 	if b.faults && verifrt.BoolI("bk.fail", b.tagN) {
+		// what a failing backend hands back besides the error is its own business (the
+		// GameBackend contract does not say nil): nothing, the state it was given, or a state
+		// it had already worked out
+		if verifrt.BoolI("bk.fail.given", b.tagN) {
+			return gs, vhErrBackend
+		}
+		if verifrt.BoolI("bk.fail.fresh", b.tagN) {
+			mf := b.m
+			if mf < 2 {
+				mf = 2
+			}
+			return vhArbitraryGS(b.tag+"f", mf), vhErrBackend
+		}
 		return nil, vhErrBackend
 	}
 	_ = k
